@@ -410,8 +410,20 @@ class Builtins:
                 raise Unsupported(f"operator {t.__name__} on object")
             return I.call(I.getattr_(a, d), [b])
         from . import gmode as _g, gexec as _ge
-        if t is ast.Add and isinstance(a, _g.SList) and isinstance(b, _g.SList):
-            return _ge.concat(I, a, b)
+        if t is ast.Add and (isinstance(a, _g.SList) or isinstance(b, _g.SList)) and all(isinstance(x, (_g.SList, list)) for x in (a, b)):
+            def as_slist(x):
+                if isinstance(x, _g.SList):
+                    return x
+                items = list(x)
+                if not all(is_num(v) for v in items):
+                    raise Unsupported("concatenation of a symbolic-length list with a list of objects")
+                def elem(u, items=items):
+                    v = real_term(items[-1]) if items else z3.RealVal(0)
+                    for pos in reversed(range(len(items) - 1)):
+                        v = z3.If(u == pos, real_term(items[pos]), v)
+                    return SNum(v, False)
+                return _g.SList(z3.IntVal(len(items)), elem, f"list{len(items)}")
+            return _ge.concat(I, as_slist(a), as_slist(b))
         if t is ast.Add:
             if isinstance(a, list) and isinstance(b, list):
                 r = list(a) + list(b)
